@@ -868,3 +868,35 @@ Example C04_plural_nonvacuous :
   }
 ").
 Proof. vm_compute. repeat split; reflexivity. Qed.
+
+(* non-vacuity of the registry theorem: the two templates in two files (main.soy, item.soy), the call from ns.main to
+   ns.item crossing the files; each file's table starts from counter 0 *)
+Definition ex_files : list c04_file :=
+  [{| cfl_name := b "main.soy"; cfl_ns := b "ns"; cfl_ae := 1; cfl_tmpls := [ex_main] |};
+   {| cfl_name := b "item.soy"; cfl_ns := b "ns"; cfl_ae := 1; cfl_tmpls := [ex_item] |}].
+Example C04_registry_nonvacuous :
+  c04_all_tmpls ex_files = ex_prog
+  /\ (forall f, In f ex_files -> forall t, In t (cfl_tmpls f) -> ct_ns_ae t = cfl_ae f /\ (S (S (bdepth (ct_body t))) < 12)%nat /\ bwf [] (ct_body t) = true)
+  /\ map fst (c04_all_jprog ex_files) = [b "ns.main"; b "ns.item"]
+  /\ c04_jcall (c04_all_jprog ex_files) 3 (b "ns.main") (to_js (VMap 1 ex_data)) JUndef = Ok (b "4[4-5<4]7[7-8<7]")
+  /\ (match gen_file ex_opts 12 (b "item.soy") (c04_file_nodes (b "ns") 1 [ex_item]) with
+      | Ok cs => Some (render_chunks is_print_tbl cs) | _ => None end) = Some (b
+"// This file was automatically generated from item.soy.
+// Please don't edit this file by hand.
+
+if (typeof ns == 'undefined') { var ns = {}; }
+
+ns.item = function(opt_data, opt_sb, opt_ijData) {
+  var output = '';
+  output += soy.$$escapeHtml(opt_data.x);
+  output += '-';
+  output += soy.$$escapeHtml(opt_data.y);
+  output += opt_data.z;
+  return output;
+};
+").
+Proof.
+  split; [reflexivity|].
+  split; [intros f [<-|[<-|[]]] t [<-|[]]; (split; [reflexivity|split; [apply Nat.ltb_lt; reflexivity|reflexivity]])|].
+  vm_compute. repeat split; reflexivity.
+Qed.
